@@ -50,6 +50,7 @@ def array_len(ty):
 
 
 class TInterp(Interp):
+    int_div_floor = False       # reshape asserts that the given dimensions divide the size: the inferred dimension is the exact quotient
     MAXDEPTH = 24
 
     def sub(self, g, vals):
@@ -118,6 +119,8 @@ class TInterp(Interp):
                 return sp.Integer(len(o))
             if is_arr(o) and name in ("begin", "end", "cbegin", "cend") and not a:
                 return ("iter", o, name.lstrip("c"))
+            if is_arr(o) and name == "size" and not a and q.startswith("std::array"):
+                return sp.Integer(len(o))
             raise OutOfFragment("method %s on a non-this object: %s" % (name, t[:60]))
         if ck == "op" and n.get("op") == "[]" and len(c) == 2:
             base = self.ev(c[0])
@@ -142,6 +145,10 @@ class TInterp(Interp):
                 return ("map", name, sp.expand(vals[0]), ext)
             if q == "nano::make_dims":
                 return [self.ev(x) for x in c]
+            if q in ("std::min", "std::max") and len(c) == 2:
+                v = [sp.sympify(self.ev(x)) for x in c]
+                if all(x.is_number for x in v):
+                    return min(v) if q == "std::min" else max(v)
             if q == "std::partial_sum" and len(c) == 3:
                 v = [self.ev(x) for x in c]
                 if all(isinstance(x, tuple) and x and x[0] == "iter" for x in v) and v[0][1] is v[1][1] and (v[0][2], v[1][2], v[2][2]) == ("begin", "end", "begin"):
@@ -295,8 +302,24 @@ def rule_polynomials(F, R, max_rank):
                     if not eq(got, want):
                         ok, detail = False, "with -1 at position %d: got %s, the definition gives %s" % (pos, got, want)
                         break
+                # empty tensors: an explicit 0 is a dimension like any other (source shapes with a zero extent, explicit targets with a 0 at each position)
+                for zpos in ((0, r - 1) if ok else ()):
+                    dz = [sp.Integer(3)] * r
+                    dz[zpos] = sp.Integer(0)
+                    for pos in range(k):
+                        s = [sp.Integer(2)] * k
+                        s[pos] = sp.Integer(0)
+                        got = run(f, dz, ([PTR] if priv else []) + s)
+                        want = ("map", "map_tensor", PTR, s)
+                        if not eq(got, want):
+                            ok, detail = False, "of an empty tensor (%s) to (%s): got %s, the definition gives %s" % (
+                                " x ".join(map(str, dz)), ", ".join(map(str, s)), got, want)
+                            break
+                    if not ok:
+                        break
                 counts[short] = counts.get(short, 0) + 1
-                R.check(ok, "R-C16-1", inst, f.loc(), "reshape keeps the data pointer and infers the -1 dimension as size/prod(others) at every position", "reshape " + detail)
+                R.check(ok, "R-C16-1", inst, f.loc(), "reshape keeps the data pointer, takes explicit dimensions (0 included) as given and infers the -1 dimension as "
+                        "size/prod(others) at every position", "reshape " + detail)
                 continue
             elif f.cls == "nano::tensor_t" and short == "operator()" and f.params:
                 k = len(f.params)
